@@ -384,4 +384,117 @@ Rendered(f) == LET placed == Place(AllToks[f], 1, [row |-> 1, col |-> 1], ch.see
 Emit == done => PrintT(<<"CASE", ToJson([files |-> [f \in 1..Len(prog) |-> Rendered(f)],
                                          expect |-> [f \in 1..Len(prog) |-> ExpectFile(prog[f])],
                                          visit |-> [f \in 1..Len(prog) |-> InFile(Traversal(prog[f]), f)]])>>)
+
+----------------------------------------------------------------------------------------------------
+(* C04 in context: ONE violation of a language rule is injected into a finished, well-formed program   *)
+(* (at a site chosen by the seed), and the program is printed with the codes that belong to the        *)
+(* violated rule.  The surrounding program is whatever the random walk built - nested modules, several *)
+(* files, attributes, tags, streams, inheritance - so every rule is met in contexts no template has.   *)
+(* Used with INVARIANT EmitInjected (MC_Syntax_inject.cfg); the actions above are untouched.           *)
+
+\* member lists of a program: [f, d, kind, j]  (kind: "fields" of struct d; "en": the fields of enumerator j of enum d;
+\* "params" / "rets": of operation j of interface d)
+ListsOfDef(p, f, d) ==
+  LET x == p[f].defs[d] IN
+  CASE x.k = "struct" -> {[f |-> f, d |-> d, kind |-> "fields", j |-> 0]}
+    [] x.k = "enum" -> {[f |-> f, d |-> d, kind |-> "en", j |-> j] : j \in {i \in 1..Len(x.ens) : x.ens[i].fields # <<>>}}
+    [] x.k = "interface" -> {[f |-> f, d |-> d, kind |-> "params", j |-> j] : j \in 1..Len(x.ops)}
+                            \cup {[f |-> f, d |-> d, kind |-> "rets", j |-> j] : j \in {i \in 1..Len(x.ops) : x.ops[i].shape = "tuple"}}
+    [] OTHER -> {}
+AllLists(p) == UNION {UNION {ListsOfDef(p, f, d) : d \in 1..Len(p[f].defs)} : f \in 1..Len(p)}
+ML(p, l) == LET x == p[l.f].defs[l.d] IN
+            CASE l.kind = "fields" -> x.fields [] l.kind = "en" -> x.ens[l.j].fields[1]
+              [] l.kind = "params" -> x.ops[l.j].params [] OTHER -> x.ops[l.j].rets
+SetML(p, l, ms) == CASE l.kind = "fields" -> [p EXCEPT ![l.f].defs[l.d].fields = ms]
+                     [] l.kind = "en" -> [p EXCEPT ![l.f].defs[l.d].ens[l.j].fields = <<ms>>]
+                     [] l.kind = "params" -> [p EXCEPT ![l.f].defs[l.d].ops[l.j].params = ms]
+                     [] OTHER -> [p EXCEPT ![l.f].defs[l.d].ops[l.j].rets = ms]
+\* may the members of this list carry tags (compact types are untagged)
+Taggable(p, l) == LET x == p[l.f].defs[l.d] IN ~(x.k \in {"struct", "enum"} /\ x.compact)
+InCompact(p, l) == LET x == p[l.f].defs[l.d] IN x.k \in {"struct", "enum"} /\ x.compact
+FreshTag(ms) == CHOOSE r \in TagRows : r.cls \notin UsedTags(ms) /\ r.lit = r.dec
+Row(cls) == CHOOSE r \in NumRows : r.cls = cls /\ r.lit = r.dec /\ ~r.neg
+HexRow(cls) == CHOOSE r \in NumRows : r.cls = cls /\ r.sp = "hex"
+Over(u) == CASE u \in {"int8"} -> "i8max1" [] u = "uint8" -> "u8max1" [] u = "int16" -> "i16max1" [] u = "uint16" -> "u16max1"
+             [] u \in {"int32", "varint32", "none"} -> "i32max1" [] u \in {"uint32", "varuint32"} -> "u32max1" [] OTHER -> ""
+Defs(p, Pred(_)) == {fd \in UNION {{<<f, d>> : d \in 1..Len(p[f].defs)} : f \in 1..Len(p)} : Pred(p[fd[1]].defs[fd[2]])}
+Bogus == [d |-> <<"bogus">>, paren |-> FALSE, args |-> <<>>]
+Depr == [d |-> <<"deprecated">>, paren |-> FALSE, args |-> <<>>]
+FloatKeyDict == TR([f |-> "dict", k |-> TR([f |-> "prim", n |-> "float32"]), v |-> TR([f |-> "prim", n |-> "bool"])])
+
+\* the catalogue: every entry is a set of [prog, rule, codes] - one per site where the injection applies
+Injections(p) ==
+  \* names unique within their scope: the second member takes the name of the first
+  {[prog |-> SetML(p, l, [ML(p, l) EXCEPT ![2].name = ML(p, l)[1].name]), rule |-> "member names unique", codes |-> {"E010"}]
+     : l \in {x \in AllLists(p) : Len(ML(p, x)) >= 2}}
+  \* tags unique: the first two members get the same tag (both optional)
+  \cup {LET ms == ML(p, l)  t == <<FreshTag(ms)>> IN
+        [prog |-> SetML(p, l, [ms EXCEPT ![1].tag = t, ![1].type.opt = TRUE, ![2].tag = t, ![2].type.opt = TRUE]), rule |-> "tags unique", codes |-> {"E012"}]
+     : l \in {x \in AllLists(p) : Len(ML(p, x)) >= 2 /\ Taggable(p, x)}}
+  \* tags only on optional members
+  \cup {LET ms == ML(p, l) IN
+        [prog |-> SetML(p, l, [ms EXCEPT ![Len(ms)].tag = <<FreshTag(ms)>>, ![Len(ms)].type.opt = FALSE]), rule |-> "tags only on optional members", codes |-> {"E016"}]
+     : l \in {x \in AllLists(p) : Len(ML(p, x)) >= 1 /\ Taggable(p, x)}}
+  \* compact types untagged
+  \cup {LET ms == ML(p, l) IN
+        [prog |-> SetML(p, l, [ms EXCEPT ![1].tag = <<FreshTag(ms)>>, ![1].type.opt = TRUE]), rule |-> "compact types untagged", codes |-> {"E015"}]
+     : l \in {x \in AllLists(p) : Len(ML(p, x)) >= 1 /\ InCompact(p, x)}}
+  \* tags within 0..2^31-1
+  \cup {LET ms == ML(p, l) IN
+        [prog |-> SetML(p, l, [ms EXCEPT ![1].tag = <<HexRow("i32max1")>>, ![1].type.opt = TRUE]), rule |-> "tags within range", codes |-> {"E021"}]
+     : l \in {x \in AllLists(p) : Len(ML(p, x)) >= 1 /\ Taggable(p, x)}}
+  \* 'stream' only on the single last parameter
+  \cup {[prog |-> SetML(p, l, [ML(p, l) EXCEPT ![1].stream = TRUE]), rule |-> "stream only on the last member", codes |-> {"E013", "E029"}]
+     : l \in {x \in AllLists(p) : x.kind \in {"params", "rets"} /\ Len(ML(p, x)) >= 2}}
+  \* return tuples of at least two
+  \cup {[prog |-> SetML(p, l, <<ML(p, l)[1]>>), rule |-> "return tuples of at least two", codes |-> {"E014"}]
+     : l \in {x \in AllLists(p) : x.kind = "rets"}}
+  \* dictionary keys of a legal type: the first field becomes a dictionary keyed by float32
+  \cup {[prog |-> SetML(p, l, [ML(p, l) EXCEPT ![1].type = FloatKeyDict, ![1].tag = <<>>]), rule |-> "dictionary keys of a legal type", codes |-> {"E003", "E004", "E005", "E006"}]
+     : l \in {x \in AllLists(p) : x.kind = "fields" /\ Len(ML(p, x)) >= 1}}
+  \* compact structs non-empty
+  \cup {[prog |-> [p EXCEPT ![fd[1]].defs[fd[2]].fields = <<>>], rule |-> "compact structs non-empty", codes |-> {"E018"}]
+     : fd \in Defs(p, LAMBDA x : x.k = "struct" /\ x.compact)}
+  \* enumerators: names unique, values unique (the same value in two spellings), values within the range, checked enums non-empty
+  \cup {[prog |-> [p EXCEPT ![fd[1]].defs[fd[2]].ens[2].name = p[fd[1]].defs[fd[2]].ens[1].name], rule |-> "enumerator names unique", codes |-> {"E010"}]
+     : fd \in Defs(p, LAMBDA x : x.k = "enum" /\ Len(x.ens) >= 2)}
+  \cup {[prog |-> [p EXCEPT ![fd[1]].defs[fd[2]].ens[1].explicit = TRUE, ![fd[1]].defs[fd[2]].ens[1].num = [neg |-> FALSE, lit |-> "7"],
+                            ![fd[1]].defs[fd[2]].ens[2].explicit = TRUE, ![fd[1]].defs[fd[2]].ens[2].num = [neg |-> FALSE, lit |-> "0x7"]],
+         rule |-> "enumerator values unique", codes |-> {"E022"}]
+     : fd \in Defs(p, LAMBDA x : x.k = "enum" /\ Len(x.ens) >= 2)}
+  \cup {LET x == p[fd[1]].defs[fd[2]]  n == Len(x.ens)  r == Row(Over(x.u)) IN
+        [prog |-> [p EXCEPT ![fd[1]].defs[fd[2]].ens[n].explicit = TRUE, ![fd[1]].defs[fd[2]].ens[n].num = [neg |-> FALSE, lit |-> r.lit]],
+         rule |-> "enumerator values within the range", codes |-> {"E020"}]
+     : fd \in Defs(p, LAMBDA x : x.k = "enum" /\ Len(x.ens) >= 1 /\ Over(x.u) # "")}
+  \cup {[prog |-> [p EXCEPT ![fd[1]].defs[fd[2]].ens = <<>>], rule |-> "checked enums non-empty", codes |-> {"E008"}]
+     : fd \in Defs(p, LAMBDA x : x.k = "enum" /\ ~x.unchecked)}
+  \* no alias of an optional type
+  \cup {[prog |-> [p EXCEPT ![fd[1]].defs[fd[2]].type.opt = TRUE], rule |-> "no alias of an optional type", codes |-> {"E034"}]
+     : fd \in Defs(p, LAMBDA x : x.k = "alias")}
+  \* attributes: unknown unprefixed directive; a non-repeatable one twice
+  \cup {[prog |-> [p EXCEPT ![fd[1]].defs[fd[2]].attrs = Append(@, Bogus)], rule |-> "unknown attribute", codes |-> {"E024"}]
+     : fd \in Defs(p, LAMBDA x : Len(x.attrs) <= 1)}
+  \cup {[prog |-> [p EXCEPT ![fd[1]].defs[fd[2]].attrs = <<Depr, Depr>>], rule |-> "attributes not repeated", codes |-> {"E026"}]
+     : fd \in Defs(p, LAMBDA x : TRUE)}
+  \* operations: names unique within the interface
+  \cup {[prog |-> [p EXCEPT ![fd[1]].defs[fd[2]].ops[2].name = p[fd[1]].defs[fd[2]].ops[1].name], rule |-> "operation names unique", codes |-> {"E010"}]
+     : fd \in Defs(p, LAMBDA x : x.k = "interface" /\ Len(x.ops) >= 2)}
+  \* definitions: two new definitions with one name (a custom type and a struct) at the end of a file - nothing refers to them
+  \cup {[prog |-> [p EXCEPT ![f].defs = @ \o <<[k |-> "custom", name |-> "Dup", attrs |-> <<>>],
+                                               [k |-> "struct", name |-> "Dup", compact |-> FALSE, attrs |-> <<>>, fields |-> <<>>]>>],
+         rule |-> "definition names unique", codes |-> {"E010"}]
+     : f \in {g \in 1..Len(p) : p[g].mod # <<>>}}
+
+\* the injection the seed selects: first a rule among those the program offers a site for, then a site (bound through
+\* singleton sets so that each draw is made once)
+InjToks(p) == LET RECURSIVE Go(_)
+                  Go(f) == IF f > Len(p) THEN <<>> ELSE <<FileToks(p[f], f, ch)>> \o Go(f + 1)
+              IN Go(1)
+InjRendered(p, f) == LET placed == Place(InjToks(p)[f], 1, [row |-> 1, col |-> 1], ch.seed + f, <<>>) IN
+                     [out |-> [i \in 1..Len(placed) |-> [sep |-> placed[i].sep, tok |-> placed[i].tok]]]
+EmitInjected == done =>
+  LET S == Injections(prog)  rules == {x.rule : x \in S} IN
+  S = {} \/ \A r \in {RandomElement(rules)} : \A x \in {RandomElement({y \in S : y.rule = r})} :
+               PrintT(<<"CASE", ToJson([fam |-> "inject", item |-> [rule |-> x.rule], violations |-> x.codes,
+                                        files |-> [f \in 1..Len(x.prog) |-> InjRendered(x.prog, f)]])>>)
 ====================================================================================================
